@@ -541,6 +541,8 @@ def run(rep, ctx):
     rep.rule("R04.3", "copies of a basis atom are moved to one periodic image before they are combined; position and element lists stay in step; the cell is spanned by the selected spans")
     with rep.guard("R04.3"):
         r04_3(rep, M, "R04.3")
+        factors_times_cell(rep, M, "R04.3")
+        both_directions_alike(rep, M, "R04.3")
     rep.rule("R04.4", "a layered cell found as 3D keeps its two thick vectors, gets the normal as third, is periodic in (a, b) and is minimised along the last axis")
     with rep.guard("R04.4"):
         r04_4(rep, M, "R04.4")
@@ -561,6 +563,7 @@ def run(rep, ctx):
     rep.rule("R04.9", "the structure is searched on a working copy whose atoms are inside the cell: atoms outside along a non-periodic axis always trigger "
              "enlargement and centring, periodic axes are wrapped (a monolayer stored outside its cell still gets a region and hence a prototype cell; shared with C01)")
     with rep.guard("R04.9"):
+        axis_index_typing(rep, M, "R04.9", c01.GC)
         c01.r01_14(rep, M, "R04.9")
         c01.r01_13(rep, M, "R04.9")
     rep.rule("R04.10", "the counter of the periodic cell vectors is not used as a cell-axis number (monolayers are found whichever axis is the vacuum axis)")
@@ -596,3 +599,167 @@ META = {
     "note": "trusted: CPython ast; spglib Hall database for the normalizer obligations; shared rules are the same code run under this property's rule ids.",
     "technique": "provenance (def-use) chain + who-may-write + idiom-shape rules for the averaging code + shared helper / table obligations",
 }
+
+
+# ----------------------------------------------------------------------------- axis counters index cells by row, per-atom arrays by column
+def axis_index_typing(rep, M, rid, fq):
+    """inside a loop over the three cell axes (the counter also selects `pbc[i]`), the counter names a *lattice vector*: a cell matrix
+    (rows = lattice vectors) is indexed with it in the first position, a per-atom coordinate array (atoms x axes) in the second"""
+    fn = M.func(fq)
+    fl = Flow(fn)
+    n = 0
+    for lp in [x for x in ast.walk(fn) if isinstance(x, ast.For)]:
+        cnt = None
+        if isinstance(lp.target, ast.Name) and isinstance(lp.iter, ast.Call) and isinstance(lp.iter.func, ast.Name) and lp.iter.func.id == "range" \
+                and len(lp.iter.args) == 1 and isinstance(lp.iter.args[0], ast.Constant) and lp.iter.args[0].value == 3:
+            cnt = lp.target.id
+        elif isinstance(lp.target, ast.Tuple) and isinstance(lp.iter, ast.Call) and isinstance(lp.iter.func, ast.Name) and lp.iter.func.id == "enumerate" \
+                and lp.iter.args and "pbc" in norm(lp.iter.args[0]) and isinstance(lp.target.elts[0], ast.Name):
+            cnt = lp.target.elts[0].id
+        if cnt is None:
+            continue
+        if not any(isinstance(s, ast.Subscript) and "pbc" in norm(s.value) and norm(s.slice) == cnt for s in ast.walk(lp)) and "enumerate" not in norm(lp.iter):
+            continue
+
+        def kind(e, at, depth=0):
+            """CELL / PERATOM for a name bound (through aliases, np.array(...), .copy()) to get_cell() / get_(scaled_)positions()"""
+            if depth > 4:
+                return None
+            if isinstance(e, ast.Call) and isinstance(e.func, ast.Attribute) and e.func.attr == "get_cell":
+                return "CELL"
+            if isinstance(e, ast.Call) and isinstance(e.func, ast.Attribute) and e.func.attr in ("get_scaled_positions", "get_positions"):
+                return "PERATOM"
+            if isinstance(e, ast.Call) and ((M.ext_name(fq, e.func) or "") in ("numpy.array", "numpy.asarray", "numpy.copy") and e.args):
+                return kind(e.args[0], at, depth + 1)
+            if isinstance(e, ast.Call) and isinstance(e.func, ast.Attribute) and e.func.attr == "copy" and not e.args:
+                return kind(e.func.value, at, depth + 1)
+            if isinstance(e, ast.Name):
+                ks = set()
+                for d in fl.rd[at].get(e.id, ()):
+                    if d == fl.cfg.entry:
+                        return None
+                    for v in fl.def_value(d, e.id):
+                        if v[0] == "expr":
+                            ks.add(kind(v[1], d, depth + 1))
+                        elif v[0] != "prev":
+                            return None
+                return ks.pop() if len(ks) == 1 else None
+            return None
+        for node, data in fl.cfg.g.nodes(data=True):
+            st = data["ast"]
+            if st is None or not any(st is x or any(st is y for y in ast.walk(x)) for x in lp.body):
+                continue
+            from ..cfg import walk_own
+            for sub in walk_own(st):
+                if not (isinstance(sub, ast.Subscript) and isinstance(sub.value, ast.Name)):
+                    continue
+                k = kind(sub.value, node)
+                if k is None:
+                    continue
+                sl = sub.slice
+                pos = None
+                if isinstance(sl, ast.Name) and sl.id == cnt:
+                    pos = 0
+                elif isinstance(sl, ast.Tuple):
+                    for j, el in enumerate(sl.elts):
+                        if isinstance(el, ast.Name) and el.id == cnt:
+                            pos = j
+                if pos is None:
+                    continue
+                n += 1
+                want = 0 if k == "CELL" else 1
+                if pos == want:
+                    rep.ok(rid, f"{fq.split('.')[-1]}: `{norm(sub)}` indexes a {'cell matrix by lattice vector' if k == 'CELL' else 'per-atom array by axis'}")
+                elif k == "CELL":
+                    rep.violation(rid, f"{fq.split('.')[-1]}: `{norm(sub)}`", f"`{norm(sub.value)}` is a cell matrix (rows = lattice vectors) and `{cnt}` counts cell axes: "
+                                  f"`{norm(sub)}` selects Cartesian component {cnt} of all three lattice vectors instead of lattice vector {cnt}; the two coincide only for "
+                                  "axis-aligned cells, so a rotated slab gets its in-plane vectors stretched and is no longer found", M.where(fq, sub))
+                else:
+                    rep.violation(rid, f"{fq.split('.')[-1]}: `{norm(sub)}`", f"`{norm(sub.value)}` is a per-atom coordinate array (atoms x axes) and `{cnt}` counts cell axes: "
+                                  f"`{norm(sub)}` selects atom {cnt}, not the coordinates along axis {cnt}", M.where(fq, sub))
+    if n == 0:
+        raise AnalysisError(f"{fq.split('.')[-1]}: no cell / per-atom array indexed by an axis counter was recognised")
+
+
+# ----------------------------------------------------------------------------- integer image factors times the cell: row vectors
+def factors_times_cell(rep, M, rid):
+    """the periodic-image correction of a per-node cell vector is (integer image factors) . cell with the cell matrix (rows = lattice vectors) as
+    the RIGHT operand; `cell . factors` is factors . cell^T, which coincides only for symmetric (axis-aligned orthorhombic) cell matrices"""
+    n = 0
+    for fq in (PF + "._find_proto_cell_3d", PF + "._find_proto_cell_2d"):
+        fn = M.func(fq)
+        cells = {s.targets[0].id for s in ast.walk(fn) if isinstance(s, ast.Assign) and len(s.targets) == 1 and isinstance(s.targets[0], ast.Name)
+                 and isinstance(s.value, ast.Call) and isinstance(s.value.func, ast.Attribute) and s.value.func.attr == "get_cell"}
+        prods = [(c, c.args[0], c.args[1]) for c in ast.walk(fn) if isinstance(c, ast.Call) and (M.ext_name(fq, c.func) or "") in ("numpy.dot", "numpy.matmul") and len(c.args) == 2]
+        prods += [(b, b.left, b.right) for b in ast.walk(fn) if isinstance(b, ast.BinOp) and isinstance(b.op, ast.MatMult)]
+        for node, left, right in prods:
+            def is_cell(e):
+                t = False
+                while isinstance(e, ast.Attribute) and e.attr == "T":
+                    e, t = e.value, not t
+                return (isinstance(e, ast.Name) and e.id in cells), t
+            lc, lt = is_cell(left)
+            rc, rt = is_cell(right)
+            if lc == rc:
+                continue
+            n += 1
+            if (rc and not rt) or (lc and lt):
+                rep.ok(rid, f"{fq.split('.')[-1]}: image factors are converted with the cell on the right (`{norm(node)[:50]}`)")
+            else:
+                rep.violation(rid, f"{fq.split('.')[-1]}: `{norm(node)[:60]}`", "the cell matrix is the left operand: this is factors . cell^T, equal to factors . cell only for a "
+                              "symmetric cell matrix (axis-aligned orthorhombic); in a rotated or hexagonal cell every per-node vector that crosses a periodic boundary is "
+                              "corrected by the wrong lattice translation, the prototype cell is polluted and the crystal is returned incomplete or not at all",
+                              M.where(fq, node))
+    if n < 2:
+        raise AnalysisError(f"periodic-image correction (factors . cell) found at {n} site(s); both prototype-cell builders have one")
+
+
+# ----------------------------------------------------------------------------- +span and -span matches are recorded alike
+def _shape(stmts, shared):
+    """structure of a statement list with the names that are private to it numbered by first occurrence"""
+    num = {}
+    out = []
+    for st in stmts:
+        for x in ast.walk(st):
+            if isinstance(x, ast.Name):
+                out.append(("name", x.id if x.id in shared else num.setdefault(x.id, len(num)), type(x.ctx).__name__))
+            elif isinstance(x, ast.Attribute):
+                out.append(("attr", x.attr))
+            elif isinstance(x, ast.Constant):
+                out.append(("const", repr(x.value)))
+            else:
+                out.append((type(x).__name__,))
+    return out
+
+
+def both_directions_alike(rep, M, rid):
+    """_find_proto_cell records the neighbour found at +span and the one found at -span in the same way (combined adjacency list, per-direction
+    list, metric count): the two sibling branches are equal up to a renaming of their private names. The combined list is the periodicity graph;
+    without the backward edges the graphs of the sub-lattices shrink and whole sub-lattices fall below the size filter"""
+    fq = PF + "._find_proto_cell"
+    fn = M.func(fq)
+    pairs = []
+    for node in ast.walk(fn):
+        for f in ("body", "orelse"):
+            blk = getattr(node, f, None)
+            if not isinstance(blk, list):
+                continue
+            for a, b in zip(blk, blk[1:]):
+                if isinstance(a, ast.If) and isinstance(b, ast.If) and not a.orelse and not b.orelse \
+                        and all(isinstance(t.test, ast.Compare) and isinstance(t.test.ops[0], ast.IsNot) and isinstance(t.test.left, ast.Name)
+                                and isinstance(t.test.comparators[0], ast.Constant) and t.test.comparators[0].value is None for t in (a, b)) \
+                        and a.test.left.id != b.test.left.id:
+                    pairs.append((a, b))
+    if not pairs:
+        raise AnalysisError("_find_proto_cell: the sibling branches for the +span / -span matches were not recognised")
+    for a, b in pairs:
+        na = {x.id for s in a.body for x in ast.walk(s) if isinstance(x, ast.Name)} | {a.test.left.id}
+        nb = {x.id for s in b.body for x in ast.walk(s) if isinstance(x, ast.Name)} | {b.test.left.id}
+        shared = (na & nb)
+        if _shape(a.body, shared) == _shape(b.body, shared):
+            rep.ok(rid, f"_find_proto_cell: the matches `{a.test.left.id}` and `{b.test.left.id}` are recorded alike ({len(a.body)} statements each)")
+        else:
+            rep.violation(rid, f"_find_proto_cell: handling of `{b.test.left.id}` against `{a.test.left.id}`", f"the two sibling branches differ beyond a renaming of their "
+                          f"private names ({len(a.body)} against {len(b.body)} statements): a neighbour found in one direction is not entered into the same lists as a neighbour "
+                          "found in the other, so the periodicity graph loses its backward (or forward) edges, sub-lattice graphs shrink below the size filter and the "
+                          "prototype cell loses whole sub-lattices", M.where(fq, b))
